@@ -347,8 +347,9 @@ def c15(tier):
                 ck.nontrivial.add((r["g"], r["q"], r["d"], k))
             if c == "H":
                 ck.violation("cancelled check did not return within 10 s", cid)
-            elif k == 0 and c != "E":
-                ck.violation("a check whose context was cancelled before the call did not return an error", cid)
+            elif c not in ("E", r["base"]) and not (c in "NU" and r["base"] in "NU"):
+                # the result and the cancellation race in the final select: an error or the answer the check gives anyway
+                ck.violation("a cancelled check returned %s: neither an error nor the answer it gives without cancellation (%s)" % (c, r["base"]), cid)
             elif r["cl"][k] > 0:
                 ck.violation("%d goroutine(s) of the check still alive 5 s after it returned and its context was cancelled" % r["cl"][k],
                              dict(cid, goroutine=r.get("leaks", "")[:1500]))
